@@ -40,7 +40,7 @@ IA_T = [25, 60, 100, 0]
 IA_T_LLNL = [40]       # off-grid temperature for databases with LLNL arrays (grid 0.01, 25, 60, 100, ...): exercises the interpolation
 IA_TRACE = 1e-6        # mol/kgw of every element of the set
 
-GD_DBS = ["pitzer.dat", "sit.dat", "frezchem.dat", "ColdChem.dat", "Concrete_PZ.dat"]
+GD_DBS = ["pitzer.dat", "frezchem.dat", "ColdChem.dat", "Concrete_PZ.dat", "sit.dat"]      # sit.dat last: 2 ms per solution
 GD_T = {"pitzer.dat": [25, 60, 100, 0], "sit.dat": [25, 60, 100, 0], "Concrete_PZ.dat": [25, 60, 100, 0],
         "frezchem.dat": [25, 0], "ColdChem.dat": [25, 0]}
 OVERLAY = {"Concrete_PZ.dat": "pitzer.dat"}      # add-on files: read on top of the named database, as their header says
@@ -51,8 +51,8 @@ M_LO, M_HI = 1e-4, 6.0
 # coefficients by Gibbs-Duhem integration" test at 18 end points).  A single short segment is not judged on its own: at a
 # stationary point of the activity coefficients (gamma+- minimum of KCl near 2.3 m) both sides of the relation and the total
 # variation vanish together and a relative residual is meaningless (calibration: see the report in evidence `calibration`).
-SEG_Q, SEG_T = 64, 320                    # fine steps per segment, quick / thorough (Romberg over h, 2h, 4h)
-SEG_Q_SIT, SEG_T_SIT = 32, 128            # the same for sit.dat (2 ms per solution instead of 0.2 ms)
+SEG_Q, SEG_T = 64, 192                    # fine steps per segment, quick / thorough (Romberg over h, 2h, 4h)
+SEG_Q_SIT, SEG_T_SIT = 32, 64             # the same for sit.dat (2 ms per solution instead of 0.2 ms)
 DIL_SEGS = 18                   # segments per dilution path
 MIX_SEGS = 4                    # segments per mixing path
 CHUNK_POINTS = 1200             # path points (SOLUTION blocks) per engine call
@@ -229,7 +229,7 @@ def ia_judge(case, inf, bgs, sp, rows):
     def prob(model, text):
         k = seen.get(model, 0)
         seen[model] = k + 1
-        if k < 2:
+        if k < 1:
             problems.append(("lg-vs-model model=%s db=%s" % (model, dbn), text))
 
     npresent = 0
@@ -321,7 +321,7 @@ def seg_steps(tier, inf):
 def path_points(path, K):
     """[{salt: molality}] fine points of a path with K fine steps per segment"""
     if path["kind"] == "dilution":
-        n = DIL_SEGS * K                 # geometric step (6e4)^(1/n): 1.0096 quick, 1.0019 thorough
+        n = DIL_SEGS * K                 # geometric step (6e4)^(1/n): 1.0096 quick, 1.0032 thorough
         r = (M_HI / M_LO) ** (1.0 / n)
         tot = sum(path["mix"].values())
         return [{s: M_LO * r ** k * w / tot for s, w in path["mix"].items()} for k in range(n + 1)]
@@ -520,7 +520,7 @@ def run_case(case):
     return run_ia(case) if case["part"] == "ia" else run_gd(case)
 
 
-_stats = {"relations": 0, "judged": 0, "segments": 0, "unresolved": 0, "worst_gd": {}, "worst_aw": {}, "worst_local": {}, "nc": {}, "present": {}}
+_stats = {"relations": 0, "judged": 0, "segments": 0, "unresolved": 0, "worst_gd": {}, "worst_aw": {}, "worst_local": {}, "nc": {}, "present": {}, "gd_samples": []}
 
 
 def explore(cs, ev, findings, pool, dl, chunksize):
@@ -539,6 +539,8 @@ def explore(cs, ev, findings, pool, dl, chunksize):
                 _stats["judged"] += r.get("judged", 0)
                 _stats["segments"] += r.get("segments", 0)
                 _stats["unresolved"] += r.get("unresolved", 0)
+                if "worst_gd" in r and "sample" in r and len(_stats["gd_samples"]) < 4 and len(path_salts(r["case"]["path"])) == len(_stats["gd_samples"]) % 2 + 1:
+                    _stats["gd_samples"].append(r["sample"])
                 if "worst_gd" in r:
                     _stats["worst_gd"][dbn] = max(_stats["worst_gd"].get(dbn, 0.0), r["worst_gd"])
                     _stats["worst_aw"][dbn] = max(_stats["worst_aw"].get(dbn, 0.0), r["worst_aw"])
@@ -642,6 +644,7 @@ def run(tier):
         "without any Debye-Hueckel term (the Debye-Hueckel A, B of the dielectric model are never computed when LLNL arrays are present) - llnl.dat: Hf+4, Pm+3, "
         "Cyanide-, Thiocyanate-",
     ]
+    ev.extra["samples_gibbs_duhem"] = _stats["gd_samples"]
     ev.extra["tolerances"] = {"log_gamma": TOL_LG, "gibbs_duhem_relative": TOL_GD, "water_activity_relative": TOL_AW}
     ev.extra["species_left_out"] = {n: len(info(n).skipped) for n in used if info(n).skipped}
     done_traces = ev.traces - ev.not_completed
